@@ -22,8 +22,8 @@ var sloDims = []dim{
 	{"issuer", []string{"registered", "absent", "unregistered"}},
 	{"nameid", []string{"present", "absent"}},
 	{"sessionindex", []string{"absent", "present"}},
-	{"issueinstant", []string{"past", "future", "empty", "garbage", "past-frac"}},
-	{"notonorafter", []string{"absent", "future", "past", "garbage", "zero-time"}},
+	{"issueinstant", []string{"past", "future", "empty", "garbage", "past-frac", "future-offset"}},
+	{"notonorafter", []string{"absent", "future", "past", "garbage", "zero-time", "past-offset"}},
 	{"slo", []string{"one", "none", "two"}},
 	{"lookup", []string{"ok", "fail"}},
 	{"style", []string{"0", "1"}},
@@ -83,6 +83,9 @@ func logoutXML(c Case, now time.Time) (string, string) {
 		fmt.Fprintf(&b, ` IssueInstant="%s"`, now.Add(10*time.Minute).UTC().Format("2006-01-02T15:04:05Z"))
 	case "garbage":
 		b.WriteString(` IssueInstant="now"`)
+	case "future-offset":
+		// an instant two hours ahead, written in a zone five hours west: its wall-clock digits lie in the past
+		fmt.Fprintf(&b, ` IssueInstant="%s"`, now.Add(2*time.Hour).In(time.FixedZone("", -5*3600)).Format("2006-01-02T15:04:05-07:00"))
 	}
 	switch c["notonorafter"] {
 	case "future":
@@ -93,6 +96,9 @@ func logoutXML(c Case, now time.Time) (string, string) {
 		b.WriteString(` NotOnOrAfter="later"`)
 	case "zero-time":
 		b.WriteString(` NotOnOrAfter="0001-01-01T00:00:00Z"`) // a valid instant, long past
+	case "past-offset":
+		// an instant one hour ago, written in a zone two hours east: its wall-clock digits lie in the future
+		fmt.Fprintf(&b, ` NotOnOrAfter="%s"`, now.Add(-time.Hour).In(time.FixedZone("", 2*3600)).Format("2006-01-02T15:04:05-07:00"))
 	}
 	b.WriteString(">")
 	switch c["issuer"] {
